@@ -40,6 +40,11 @@ func (b *setBuilder) claim(signer, pn int, ct, attr, val string) int {
 	return id
 }
 
+// delAt: a delete claim with an explicit date (unix nanoseconds)
+func (b *setBuilder) delAt(signer, target int, date int64) int {
+	return b.add(&Spec{Kind: "del", Signer: signer, Target: target, Date: date})
+}
+
 // claimAt: a claim with an explicit date (unix nanoseconds)
 func (b *setBuilder) claimAt(signer, pn int, ct, attr, val string, date int64) int {
 	id := b.add(&Spec{Kind: "claim", Signer: signer, PN: pn, CType: ct, Attr: attr, Val: val})
@@ -122,6 +127,35 @@ func (b *setBuilder) finish(name string, deliver []int) (*Set, error) {
 			}
 		}
 		changed := false
+		// delete claims of one target with equal dates differ in their signer only: deal the signers in blobref order
+		delGroups := map[[2]int64][]*Spec{}
+		for _, s := range b.specs {
+			if s.Kind == "del" {
+				k := [2]int64{int64(s.Target), s.Date}
+				delGroups[k] = append(delGroups[k], s)
+			}
+		}
+		for _, g := range delGroups {
+			if len(g) < 2 {
+				continue
+			}
+			type dc struct {
+				signer int
+				ref    string
+			}
+			var cs []dc
+			for _, s := range g {
+				cs = append(cs, dc{s.Signer, w.Blob[s.ID].BlobRef().String()})
+			}
+			sorted := append([]dc(nil), cs...)
+			sort.Slice(sorted, func(i, j int) bool { return sorted[i].ref < sorted[j].ref })
+			for i, s := range g {
+				if sorted[i].ref != cs[i].ref {
+					s.Signer = sorted[i].signer
+					changed = true
+				}
+			}
+		}
 		for _, g := range groups {
 			if len(g) < 2 {
 				continue
@@ -384,6 +418,41 @@ func FixedSets(r *hk.Rand) []*Set {
 		b.claim(k, q, "set", fmt.Sprintf("p%d", LongBase+700), fmt.Sprintf("r%d", p))
 		push(b, "oversized-rows", seq(1, 9))
 	}
+	{ // two delete claims of one permanode with the SAME claim date (two signers), and a delete of one of them
+		b := &setBuilder{}
+		k0 := b.key(0)
+		k1 := b.key(1)
+		p := b.pn(k0, n+20)
+		d := dateOf(70) + 123000000
+		d1 := b.delAt(k0, p, d)
+		b.delAt(k1, p, d)
+		b.del(k0, d1)
+		push(b, "equal-date-deleters", seq(1, 6))
+	}
+	{ // the same on an attribute claim, plus a deleter with a different date and a delete of the other tied deleter
+		b := &setBuilder{}
+		k0 := b.key(0)
+		k1 := b.key(1)
+		p := b.pn(k1, n+21)
+		c := b.claim(k0, p, "set", "i0", "s3")
+		d := dateOf(80) + 500000000
+		b.delAt(k0, c, d)
+		d2 := b.delAt(k1, c, d)
+		b.del(k1, d2)
+		push(b, "equal-date-deleters-of-claim", seq(1, 7))
+	}
+	{ // claims whose VALUE names a blob that arrives later or never: member, content, path targets
+		b := &setBuilder{}
+		k := b.key(0)
+		p := b.pn(k, n+22)
+		q := b.pn(k, n+23) // withheld: never arrives in most schedules
+		f := b.file(1, 0, z(5))
+		b.claim(k, p, "add", "m", fmt.Sprintf("r%d", q))
+		b.claim(k, p, "set", "o0", fmt.Sprintf("r%d", f))
+		b.claim(k, p, "set", "p2", fmt.Sprintf("r%d", q))
+		b.claim(k, p, "add", "m", fmt.Sprintf("r%d", f))
+		push(b, "named-blobs-late-or-never", without(seq(1, 8), q))
+	}
 	return sets
 }
 
@@ -562,6 +631,34 @@ func (s *Set) Shapes() []string {
 			}
 		}
 	}
+	delDates := map[[2]int64]int{}
+	for _, sp := range s.Specs {
+		if sp.Kind == "del" {
+			k := [2]int64{int64(sp.Target), sp.Date}
+			delDates[k]++
+			if delDates[k] == 2 {
+				out["shape:equal-date-delete-claims-on-a-target"] = true
+				for _, d := range deleters[sp.Target] {
+					if len(deleters[d]) > 0 && s.W.Specs[d].Date == sp.Date {
+						out["shape:equal-date-deleter-itself-deleted"] = true
+					}
+				}
+			}
+		}
+		if sp.Kind == "claim" && sp.Val[0] == 'r' {
+			out["shape:claim-value-names-a-blob"] = true
+			id, _ := atoiStrict(sp.Val[1:])
+			in := false
+			for _, x := range s.Deliver {
+				if x == id {
+					in = true
+				}
+			}
+			if !in {
+				out["shape:claim-value-names-a-blob-that-never-arrives"] = true
+			}
+		}
+	}
 	type pnSec struct {
 		pn  int
 		sec int64
@@ -615,6 +712,24 @@ func (s *Set) lateContentFiles(order []int) int {
 		id, _ := atoiStrict(sp.Val[1:])
 		if f := s.W.Specs[id]; f != nil && f.Kind == "file" && f.MTime != 0 && pos[id] > pos[sp.ID] {
 			n++
+		}
+	}
+	return n
+}
+
+// lateNamed counts the claims of an arrival order whose value names a blob that arrives later.
+func (s *Set) lateNamed(order []int) int {
+	pos := map[int]int{}
+	for i, id := range order {
+		pos[id] = i + 1
+	}
+	n := 0
+	for _, sp := range s.Specs {
+		if sp.Kind == "claim" && sp.Val[0] == 'r' && pos[sp.ID] > 0 {
+			id, _ := atoiStrict(sp.Val[1:])
+			if pos[id] > pos[sp.ID] {
+				n++
+			}
 		}
 	}
 	return n
@@ -924,6 +1039,9 @@ func RunCase(r *hk.Run, s *Set, sc *Schedule, obsEvery bool) caseResult {
 		if k := s.lateContentFiles(sc.Order); k > 0 {
 			r.Res.Histogram["sched:content-file-arrives-after-its-camliContent-claim"] += k
 		}
+		if k := s.lateNamed(sc.Order); k > 0 {
+			r.Res.Histogram["sched:claim-arrives-before-the-blob-its-value-names"] += k
+		}
 		if k := s.lateDeleters(sc.Order); k > 0 {
 			r.Res.Histogram["sched:second-delete-claim-on-a-target"] += k
 		}
@@ -1026,7 +1144,7 @@ func RunCase(r *hk.Run, s *Set, sc *Schedule, obsEvery bool) caseResult {
 // classifyObsDiff names the part of the query surface in which live and reloaded answers differ.
 func classifyObsDiff(live, reload string) string {
 	a, b := strings.Split(live, ";"), strings.Split(reload, ";")
-	names := []string{"meta", "deleted", "permanode", "bymodtime", "bycreated"}
+	names := []string{"meta", "deleted", "permanode", "bymodtime", "bycreated", "claimback"}
 	for i := range a {
 		if i < len(b) && i < len(names) && a[i] != b[i] {
 			return "c06-live-differs-from-reload-" + names[i]
@@ -1090,6 +1208,21 @@ func Explore(r *hk.Run, s *Set, obs bool, maxPerm int, extra int) {
 			orders = append(orders, shuffled(r.R, s.Deliver))
 		}
 		r.Hit("sets:random-orders")
+		// keys first, then every order of the other blobs, when those are few enough
+		var keysFirst, others []int
+		for _, id := range s.Deliver {
+			if s.W.Specs[id].Kind == "key" {
+				keysFirst = append(keysFirst, id)
+			} else {
+				others = append(others, id)
+			}
+		}
+		if len(keysFirst) > 0 && len(others) <= maxPerm-1 {
+			for _, p := range permutations(others) {
+				orders = append(orders, append(append([]int(nil), keysFirst...), p...))
+			}
+			r.Hit("sets:keys-first-then-all-permutations")
+		}
 	}
 	for i, o := range orders {
 		sc := &Schedule{Label: "perm " + idsTok(o), Order: o, Restart: -1, Steps: i%7 == 0 || obs, KV: kvOf(i), Corpus: corpus || i%5 == 3}
